@@ -115,7 +115,8 @@ def main():
                      "confirmed": c, "ran": "tools/seed_pipeline.py: scratch worktree confirm (suite + demo with/without), then "
                      "git -C /repo apply; run.py <check> --tier %s; git -C /repo checkout -- ." % tier,
                      "check_results": ev, "check_history": hist,
-                     "detected": any(v.get("exit") == 1 for v in ev.values() if isinstance(v, dict))})
+                     "detected": any(v.get("exit") == 1 and any(l.startswith("VIOLATION") for l in v.get("lines", []))
+                                     for v in ev.values() if isinstance(v, dict))})
         json.dump(meta, open(dst + "/meta.json", "w"), indent=1)
 
 
